@@ -243,16 +243,19 @@ def r2_adaptive(repo: Repo, rep):
             pa = kwarg(draws[0], "params", 0)
             rep.check(R, pa is not None and dump(pa) == "params", sp.site(), sp.fq, "candidates drawn for the caller's params", dk, dk)
             rep.check(R, dump(p.ret) == "self.last_points" or dump(p.ret) == dk, sp.site(p.ret_node), sp.fq, "returns the retained point set", dump(p.ret), dump(p.ret))
-            first = any(pol and ("is None" in dump(g)) for g, pol, k in p.guards)
+            nones = {dump(g): pol for g, pol, k in p.guards if k == "if" and isinstance(g, ast.Compare) and isinstance(g.ops[0], ast.Is) and dump(g.comparators[0]) == "None"}
+            first = any(nones.values())
             stores = [e for e in p.events if e.kind == "store"]
+            want = {"self.last_points is None", f"{lossp} is None"}
             if first:
                 lp = p.env.get("self.last_points")
                 rep.check(R, lp is not None and dump(lp) == dk and not stores, sp.site(), sp.fq, "first call / no loss: the candidates are adopted", f"last_points = {dump(lp)[:60]}", "adopt")
-                g = [g for g, pol, k in p.guards if pol and "is None" in dump(g)][0]
-                txt = dump(g)
-                rep.check(R, "self.last_points is None" in txt and f"{lossp} is None" in txt and isinstance(g, ast.BoolOp) and isinstance(g.op, ast.Or), sp.site(), sp.fq,
-                          "adoption exactly when there are no retained points or no loss", txt, txt)
+                txt = str(sorted(k for k, v in nones.items() if v))
+                rep.check(R, {k for k, v in nones.items() if v} <= want, sp.site(), sp.fq, "adoption exactly when there are no retained points or no loss", txt, txt)
                 continue
+            # the replacement path: both retained points and a loss exist
+            txt = str(sorted(nones.items()))
+            rep.check(R, {k for k, v in nones.items() if not v} >= want, sp.site(), sp.fq, "adoption exactly when there are no retained points or no loss", f"replacement path guarded by {txt}", txt)
             if len(stores) != 1:
                 rep.violation(R, sp.site(), sp.fq, "exactly one in-place row replacement", f"{len(stores)} subscript stores", f"{len(stores)} stores")
                 continue
